@@ -290,9 +290,73 @@ def run(chk):
         # ---- emission events: what is written at which position of the output, under which length class
         fi = {x["name"]: i for i, x in enumerate(st)}
 
+        BIG = 1 << 64
+
+        def _flow_intervals():
+            """{block: (lo, hi)} — hull of the values f.length can have on entry to each block, by forward propagation of the comparisons of
+            f.length with constants along the edges (an edge whose constraint leaves nothing is not taken): exact where a block is reached
+            by several arms of a range `match`, which no single dominating comparison describes."""
+            def constraint(d, truth):
+                d = panics._strip(d)
+                if not (isinstance(d, tuple) and d[0] == "bin" and d[1] in ("Lt", "Le", "Gt", "Ge", "Eq", "Ne")):
+                    return None
+                a_, b_ = panics._strip(d[2]), panics._strip(d[3])
+                op = d[1]
+                if isinstance(b_, tuple) and b_[0] == "field" and b_[2] == li and isinstance(a_, tuple) and a_[0] == "lit":
+                    a_, b_ = b_, a_
+                    op = {"Lt": "Gt", "Le": "Ge", "Gt": "Lt", "Ge": "Le"}.get(op, op)
+                if not (isinstance(a_, tuple) and a_[0] == "field" and a_[2] == li and isinstance(b_, tuple) and b_[0] == "lit" and isinstance(b_[1], int)):
+                    return None
+                v = b_[1]
+                if not truth:
+                    op = {"Lt": "Ge", "Le": "Gt", "Gt": "Le", "Ge": "Lt", "Eq": "Ne", "Ne": "Eq"}[op]
+                return {"Lt": (0, v - 1), "Le": (0, v), "Gt": (v + 1, BIG), "Ge": (v, BIG), "Eq": (v, v), "Ne": None}[op]
+            state = {0: (0, BIG)}
+            work = [0]
+            n_ = 0
+            while work and n_ < 5000:
+                n_ += 1
+                bi_ = work.pop()
+                cur = state[bi_]
+                t_ = e.term(bi_)
+                outs = []
+                if t_ and t_["k"] == "switch" and t_.get("discr_ty") == "bool":
+                    info_ = core.switch_info(prog, e, bi_)
+                    dd = describe(prog, e, t_["discr"])
+                    for lab_ in ("true", "false"):
+                        tgt_ = info_["edges"].get(lab_) if info_ else None
+                        if tgt_ is None:
+                            continue
+                        c_ = constraint(dd, lab_ == "true")
+                        nv = cur if c_ is None else (max(cur[0], c_[0]), min(cur[1], c_[1]))
+                        if nv[0] <= nv[1]:
+                            outs.append((tgt_, nv))
+                elif t_ and t_["k"] == "switch" and panics._strip(describe(prog, e, t_["discr"]))[0:1] == ("field",) and panics._strip(describe(prog, e, t_["discr"]))[2] == li:
+                    taken = []
+                    for v_, tgt_ in t_["targets"]:
+                        if cur[0] <= v_ <= cur[1]:
+                            outs.append((tgt_, (v_, v_)))
+                            taken.append(v_)
+                    outs.append((t_["otherwise"], cur))
+                else:
+                    outs = [(sx, cur) for sx in e.succs(bi_)]
+                for tgt_, nv in outs:
+                    old_ = state.get(tgt_)
+                    new_ = nv if old_ is None else (min(old_[0], nv[0]), max(old_[1], nv[1]))
+                    if new_ != old_:
+                        state[tgt_] = new_
+                        work.append(tgt_)
+            return state
+        _flow = {}
+
         def length_interval(blk):
             """[lo, hi] allowed for f.length at blk by the dominating comparisons (hi None = unbounded)."""
+            if not _flow:
+                _flow.update(_flow_intervals())
             lo, hi = 0, None
+            if blk in _flow:
+                lo = max(lo, _flow[blk][0])
+                hi = None if _flow[blk][1] >= BIG else _flow[blk][1]
             for (a_, op, r_) in panics.cmp_facts(prog, e, blk):
                 for x, o_, y in ((a_, op, r_), (r_, {"<": ">", "<=": ">=", ">": "<", ">=": "<=", "==": "==", "!=": "!="}.get(op, op), a_)):
                     x = panics._strip(x)
@@ -339,10 +403,20 @@ def run(chk):
             for blk_i, d in stores.get(idx, []):
                 byte[idx].append((blk_i, d))
         base = 2 if inits == [("lit", 2)] else (0 if not inits else None)
+        # `vec![first, ..]`: the elements written into the fresh box before it becomes the Vec are bytes 0.. ; pushes continue after them
+        init_ops = []
+        if base == 0 and e.calls_to(r"box_assume_init_into_vec_unsafe$|slice::<impl \[T\]>::into_vec$"):
+            for bi_, blk_ in enumerate(e.blocks):
+                for st_ in blk_["stmts"]:
+                    rv_ = st_.get("rv")
+                    if rv_ and rv_.get("k") == "agg" and rv_.get("agg") == "array" and rv_.get("ty") == "u8" and "pl" in st_ and (st_.get("exp") == "vec" or st_["pl"]["p"]):
+                        init_ops = [(bi_, o_) for o_ in rv_["ops"]]
         if base == 0:
+            for i_, (bi_, o_) in enumerate(init_ops[:2]):
+                byte[i_].append((bi_, describe(prog, e, o_)))
             for blk, kind, d, op_ in events:
-                if kind == "push" and position(blk) in (0, 1):
-                    byte[position(blk)].append((blk, d))
+                if kind == "push" and position(blk) is not None and position(blk) + len(init_ops) in (0, 1):
+                    byte[position(blk) + len(init_ops)].append((blk, d))
         chk.ob("R5.header_bits", enc[0], "the two header bytes are written first (indexed stores into vec![0; 2], or the first two pushes)", base is not None and len(byte[0]) == 1 and len(byte[1]) >= 1,
                f"initial buffer {inits}; byte 0 written at {len(byte[0])} site(s), byte 1 at {len(byte[1])}")
 
@@ -386,6 +460,9 @@ def run(chk):
         ev_op = {ev[0]: ev[3] for ev in events if ev[1] == "push"}
 
         def byte_bits(blk, idx):
+            for i_, (bi_, o_) in enumerate(init_ops):
+                if bi_ == blk and i_ == idx and base == 0:
+                    return bit_names(blk, o_)
             if blk in ev_op and base == 0:
                 return bit_names(blk, ev_op[blk])
             for s_ in ([store_stmt[(blk, idx)]] if (blk, idx) in store_stmt else []):
